@@ -414,5 +414,9 @@ def run(chk, fb, tier):
     _d2(chk, fb)
     _d3(chk, fb)
     _d4(chk, fb)
+    from . import argswap as _argswap
+    chk.rule("DA", "argument/parameter name agreement at forwarding calls in the anchored units (same-typed parameters must not be swapped)")
+    _af = ('src/Bpp/Numeric/Random/RandomTools.h', 'src/Bpp/Numeric/Random/RandomTools.cpp', 'src/Bpp/Numeric/Random/ContingencyTableGenerator.cpp', 'src/Bpp/Numeric/Stat/ContingencyTableTest.cpp', 'src/Bpp/Numeric/Prob/AbstractDiscreteDistribution.cpp', 'src/Bpp/Numeric/Prob/GammaDiscreteDistribution.h', 'src/Bpp/Numeric/Prob/GaussianDiscreteDistribution.h', 'src/Bpp/Numeric/Prob/ExponentialDiscreteDistribution.h', 'src/Bpp/Numeric/Prob/BetaDiscreteDistribution.h', 'src/Bpp/Numeric/Hmm/AbstractHmmTransitionMatrix.cpp')
+    _argswap.check(chk, fb, "DA", [f_ for f_ in fb.concrete_fns() if f_.body is not None and any(f_.relfile.endswith(x_) for x_ in _af)], 1)
     chk.assume("ISO C++ parameterisation: exponential_distribution(lambda = rate), gamma_distribution(alpha = shape, beta = scale), normal_distribution(mean, stddev)")
     chk.assume("weighted picks are called with size(w) == size(v)")
